@@ -78,16 +78,26 @@ package ipv4
 //@   prop C12
 //@   requires socket != nil
 //@   assert call syscall.Syscall6: arg0 == 54 && int(arg1) == socket.fd && arg2 == 0 && arg3 == 40 && arg5 == 12
+//@   assert call syscall.Syscall6: [request-bytes] forall i :: 0 <= i && i < 4 ==> mreqSource.Multiaddr[i] == mreq.Multiaddr[i]
+//@   // the kernel's verdict is the caller's: an errno is returned, success is nil
+//@   remember after call syscall.Syscall6: refused = result2 != 0
+//@   ensures [outcome] (err != nil) == refused
 
 //@ func BlockSource
 //@   prop C12
 //@   requires socket != nil
 //@   assert call syscall.Syscall6: arg0 == 54 && int(arg1) == socket.fd && arg2 == 0 && arg3 == 38 && arg5 == 12
+//@   // the kernel's verdict is the caller's: an errno is returned, success is nil
+//@   remember after call syscall.Syscall6: refused = result2 != 0
+//@   ensures [outcome] (err != nil) == refused
 
 //@ func UnblockSource
 //@   prop C12
 //@   requires socket != nil
 //@   assert call syscall.Syscall6: arg0 == 54 && int(arg1) == socket.fd && arg2 == 0 && arg3 == 37 && arg5 == 12
+//@   // the kernel's verdict is the caller's: an errno is returned, success is nil
+//@   remember after call syscall.Syscall6: refused = result2 != 0
+//@   ensures [outcome] (err != nil) == refused
 
 // Building an add request looks the interface's addresses up (loop, type switch over net.Addr):
 // outside the contracts.
@@ -109,3 +119,7 @@ package ipv4
 //@   requires socket != nil
 //@   remember after call prepareAddMembership: built = result1 == nil
 //@   assert call syscall.Syscall6: built && arg0 == 54 && int(arg1) == socket.fd && arg2 == 0 && arg3 == 39 && arg5 == 12
+//@   remember after call syscall.Syscall6: refused = result2 != 0
+//@   ensures [outcome] built ==> (result != nil) == refused
+//@   // the request carries the group and interface of the request that was built
+//@   assert call syscall.Syscall6: [request-bytes] forall i :: 0 <= i && i < 4 ==> mreqSource.Multiaddr[i] == mreq.Multiaddr[i] && mreqSource.Interface[i] == mreq.Interface[i]
